@@ -569,6 +569,12 @@ func c16Oracle(prop string, census bool) func(tr *mc.Trace) []h.Violation {
 		if census && cen != nil && cen.N > 0 {
 			bad("receiver-leak", "%s: %d library goroutine(s) still alive after the connection ended and Inbound was drained: %s", hist, cen.N, cen.Desc)
 		}
+		for hx := range wrote {
+			b, _ := hex.DecodeString(hx)
+			if len(b) >= 6 && (int(b[4])<<8|int(b[5])) != len(b) {
+				bad("datagram-length-differs-from-header", "a buffer of %d octets was handed to the network whose header announces a total length of %d: %s", len(b), int(b[4])<<8|int(b[5]), hx)
+			}
+		}
 		for hx, n := range sends {
 			if wrote[hx] != n {
 				bad("send-not-one-write", "frame %s was sent %d time(s) but written %d time(s) as one contiguous buffer (writes: %v)", hx, n, wrote[hx], wrote)
@@ -629,6 +635,10 @@ func init() {
 	reg("both", "C16-udp-close-race", "C16", 2, 3, c16CloseRace(false), true)
 	reg("both", "C16-tcp-close-race", "C16", 2, 3, c16CloseRace(true), true)
 	reg("both", "C16-connreq-endpoint", "C16", 0, -1, c16ConnReq(), false)
+	// C15's datagram clause ("the total-length field equals the length of the datagram handed to the
+	// network") under concurrent senders shares the sender scenarios
+	reg("both", "C15-udp-senders-3x2", "C15", 2, 2, c16Senders(false, 3, 2), false)
+	reg("both", "C15-tcp-senders-3x2", "C15", 2, 2, c16Senders(true, 3, 2), false)
 	// the history half of C01 shares the scenarios (registered under C01's own names)
 	reg("both", "C01-udp-receiver-histories-L3", "C01", 0, -1, c16History(false, 3), false)
 	reg("both", "C01-tcp-receiver-histories-L3", "C01", 0, -1, c16History(true, 3), false)
